@@ -164,7 +164,8 @@ def _structure(
             nodes[sig] = res_node
             all_refs[fis_.store_path] = sig
             sub_set.update([n.node_hash for n in sub_nodes])
-            node_deps[res_node.node_hash] = sub_set
+            # (the node may already have been traversed through another call: its known dependencies are kept)
+            node_deps.setdefault(res_node.node_hash, set()).update(sub_set)
             for sub_n in sub_nodes:
                 k = (sub_n.node_hash, res_node.node_hash)
                 if k not in deps or deps[k].edge_type != DirectEdge:
